@@ -28,6 +28,10 @@ CONST_METRICS = (
     "none", "identity", "scaled", "diag_array", "diag", "dense_array", "dense", "chol_lower", "chol_upper", "eig",
     "block", "lowrank_plus", "lowrank_minus", "softabs_const", "product", "derived",
 )
+DERIVED_BASES = ("dense", "chol_lower", "eig", "diag", "lowrank_plus", "block", "product", "softabs_const", "chol_upper")
+DERIVED_TEMPLATES = [["touch", "scale"], ["touch", "div"], ["inv", "scale"], ["touch", "inv", "rscale"], ["scale", "touch", "div"],
+                     ["inv", "touch", "inv"], ["touch", "rscale", "inv"], ["touch_sqrt", "inv"], ["touch_sqrt", "inv", "scale"],
+                     ["touch_eig", "inv"], ["touch_sqrt", "scale"], ["touch_eig", "scale", "inv"], ["touch_sqrt", "inv", "touch", "inv"]]
 CONSTRAINTS = ("hyperplane", "hyperplanes2", "sphere", "quadric", "two_quadrics", "arctan_sphere", "arctan_quadric", "sine",
                "log_sphere", "log_quadric", "exp_sphere", "exp_quadric")
 
@@ -376,24 +380,35 @@ def _const_metric(kind: str, dim: int, rng):
         s = (s + s.T) / 2
         coeff = float(rng.uniform(0.5, 3.0))
         return mm.SoftAbsRegularizedPositiveDefiniteMatrix(s.copy(), coeff), softabs_dense(s, coeff)
-    if kind == "derived":
+    if kind.startswith("derived"):
+        # ("derived" = random base and operations; "derived:<base>:<op>+<op>..." = prescribed)
         # a metric written as an expression: positive multiples, quotients and inverses of a matrix object, possibly one
         # whose lazily computed factorisation is already in place when the expression is formed
         from mici import matrices as mm2
 
-        base_kind = str(rng.choice(["dense", "chol_lower", "eig", "diag", "lowrank_plus", "block", "product", "softabs_const"]))
+        base_kind = str(rng.choice(DERIVED_BASES))
+        prescribed = None
+        if ":" in kind:
+            _, base_kind, opstr = kind.split(":")
+            prescribed = opstr.split("+")
         m, d = _const_metric(base_kind, dim, rng)
         ops = []
-        templates = [["touch", "scale"], ["touch", "div"], ["inv", "scale"], ["touch", "inv", "rscale"], ["scale", "touch", "div"],
-                     ["inv", "touch", "inv"], ["touch", "rscale", "inv"]]
-        plan = templates[int(rng.integers(0, len(templates)))] if rng.integers(0, 5) < 3 else \
+        templates = DERIVED_TEMPLATES
+        plan = prescribed if prescribed is not None else templates[int(rng.integers(0, len(templates)))] if rng.integers(0, 5) < 3 else \
             [str(rng.choice(["touch", "scale", "div", "inv", "rscale"])) for _ in range(int(rng.integers(1, 4)))]
         for op in plan:
             ops.append(op)
             if op == "touch":
-                _ = m.sqrt, m.log_abs_det  # noqa: F841
-                if rng.integers(0, 2):
-                    _ = m.inv  # noqa: F841
+                # a random subset, in random order, of the lazily computed representations
+                names = [a for a in ("sqrt", "log_abs_det", "inv", "eigval", "eigvec", "T", "diagonal") if hasattr(type(m), a)]
+                k = int(rng.integers(1, len(names) + 1))
+                for a in rng.permutation(names)[:k]:
+                    getattr(m, str(a))
+            elif op == "touch_sqrt":
+                _ = m.sqrt  # noqa: F841
+            elif op == "touch_eig":
+                if hasattr(type(m), "eigval"):
+                    _ = m.eigval, m.eigvec  # noqa: F841
             elif op in ("scale", "rscale", "div"):
                 c = float(rng.choice([0.25, 0.5, 2.0, 3.0, 4.0]))
                 if op == "scale":
